@@ -40,33 +40,47 @@ func c02Count(c *Ctx) {
 		c.Unresolved("retrypolicy.executor", "not resolved")
 		return
 	}
-	tn := info.Named.Obj().Name()
+	tn := typeCanonName(info.Named.Obj())
 	n := 0
-	for _, f := range c.P.structFields("retrypolicy", tn) {
-		if f.Embedded() {
-			continue
+	owners := map[*types.TypeName]bool{info.Named.Obj(): true}
+	fields := execStateFields(c.P, "retrypolicy", info.Named)
+	for _, fr := range fields {
+		if on := c.P.NamedType("retrypolicy", fr.Type); on != nil {
+			owners[on.Obj()] = true
 		}
+	}
+	var counter FieldRef
+	for _, fr := range fields {
 		n++
-		fr := FieldRef{Type: tn, Pkg: "retrypolicy", Field: f.Name()}
+		if fr.Field == actualField("retrypolicy", "executor", "failedAttempts") {
+			counter = fr
+		}
 		ok := true
 		var ws []string
 		for _, w := range ix.Writers(fr) {
 			ws = append(ws, c.fn(w))
-			rn := namedOfPtr(recvType(w))
-			if rn == nil || rn.Obj() != info.Named.Obj() {
+			if !ix.Within(w, func(f *ssa.Function) bool {
+				rn := namedOfPtr(recvType(f))
+				return rn != nil && owners[rn.Obj()]
+			}) {
 				ok = false
-				c.Fail("retrypolicy."+tn+"."+f.Name(), c.P.FuncPos(w), fmt.Sprintf("per-execution retry state %s is written by %s, which is not a method of the retry executor", f.Name(), c.fn(w)), "")
+				c.Fail("retrypolicy."+tn+"."+fr.Field, c.P.FuncPos(w), fmt.Sprintf("per-execution retry state %s is written by %s, which is not a method of the retry executor", fr.Field, c.fn(w)), "")
 			}
 		}
 		if ok {
-			c.Ok("retrypolicy."+tn+"."+f.Name(), "", "written only by executor methods: "+strings.Join(ws, ", "))
+			c.Ok("retrypolicy."+tn+"."+fr.Field, "", "written only by executor methods: "+strings.Join(ws, ", "))
 		}
 	}
 	c.Floor("mutable retry executor fields", n, 3)
 	// failedAttempts specifically: only OnFailure writes it (decision table shows +1 per call)
-	fr := FieldRef{Type: tn, Pkg: "retrypolicy", Field: "failedAttempts"}
-	ws := ix.Writers(fr)
-	if len(ws) != 1 || ws[0] != info.Slots["OnFailure"] {
+	ws := ix.Writers(counter)
+	onlyOnFailure := len(ws) >= 1
+	for _, w := range ws {
+		if !ix.Within(w, func(f *ssa.Function) bool { return f == info.Slots["OnFailure"] }) {
+			onlyOnFailure = false
+		}
+	}
+	if !onlyOnFailure {
 		var names []string
 		for _, w := range ws {
 			names = append(names, c.fn(w))
@@ -75,6 +89,31 @@ func c02Count(c *Ctx) {
 	} else {
 		c.Ok("retrypolicy."+tn+".failedAttempts#single-writer", c.P.FuncPos(ws[0]), "only OnFailure writes the counter; it starts at zero in the fresh executor")
 	}
+}
+
+// execStateFields: the mutable per-execution fields of a policy executor: its own non-embedded fields plus the
+// fields of same-package structs it embeds by value (state grouped into a helper struct is still its state).
+func execStateFields(p *Program, pkg string, named *types.Named) []FieldRef {
+	var out []FieldRef
+	var walk func(n *types.Named, depth int)
+	walk = func(n *types.Named, depth int) {
+		s, ok := n.Underlying().(*types.Struct)
+		if !ok || depth > 3 {
+			return
+		}
+		for i := 0; i < s.NumFields(); i++ {
+			f := s.Field(i)
+			if f.Embedded() {
+				if en, ok := f.Type().(*types.Named); ok && en.Obj().Pkg() == named.Obj().Pkg() {
+					walk(en, depth+1)
+				}
+				continue
+			}
+			out = append(out, FieldRef{Type: typeCanonName(n.Obj()), Pkg: pkg, Field: f.Name()})
+		}
+	}
+	walk(named, 0)
+	return out
 }
 
 // recvType returns the receiver type of a method (of the enclosing method for anonymous functions).
@@ -125,11 +164,7 @@ func configImmutable(c *Ctx, pkg string) {
 			fr := FieldRef{Type: t.typ, Pkg: relName, Field: f.Name()}
 			ok := true
 			for _, w := range ix.Writers(fr) {
-				top := w
-				for top.Parent() != nil {
-					top = top.Parent()
-				}
-				if isBuilderMethod(top) || isConstructorLike(top) {
+				if ix.Within(w, func(f *ssa.Function) bool { return isBuilderMethod(f) || isConstructorLike(f) }) {
 					continue
 				}
 				ok = false
@@ -149,11 +184,9 @@ func configImmutable(c *Ctx, pkg string) {
 		fr := FieldRef{Type: policyType, Pkg: pkg, Field: f.Name()}
 		ok := true
 		for _, w := range ix.Writers(fr) {
-			top := w
-			for top.Parent() != nil {
-				top = top.Parent()
-			}
-			if isConstructorLike(top) || isBuilderMethod(top) || (pkg == "circuitbreaker" && f.Name() == "state" && top.Name() == "transitionTo") {
+			if ix.Within(w, func(top *ssa.Function) bool {
+				return isConstructorLike(top) || isBuilderMethod(top) || (pkg == "circuitbreaker" && f.Name() == "state" && top.Name() == "transitionTo")
+			}) {
 				continue
 			}
 			ok = false
